@@ -10,6 +10,8 @@ for n in $names; do
   # a change that breaks a neighbouring property names the check that catches it
   other=$(jq -r '.caught_by_check // empty' seeded/$n/meta.json 2>/dev/null); [ -n "$other" ] && id=$other
   p=seeded/$n/patch.diff
+  # a documented gap: a kept change that no check catches (see DESIGN.md section 9)
+  if [ "$(jq -r '.status // empty' seeded/$n/meta.json 2>/dev/null)" = "missed" ]; then echo "$n: KNOWN-MISS (documented gap)"; continue; fi
   if ! git -C /repo diff --quiet; then echo "$n: /repo working tree not clean, aborting"; exit 2; fi
   if ! git -C /repo apply --check $PWD/$p 2>/dev/null; then echo "$n: DOES-NOT-APPLY"; rc_all=1; continue; fi
   git -C /repo apply $PWD/$p
